@@ -12,16 +12,21 @@ import (
 	"fmt"
 	"math/rand/v2"
 	"os"
+	"regexp"
 	"sort"
 	"strings"
 	"time"
 )
+
+var persistLoadRe = regexp.MustCompile(`persist load ([A-Za-z0-9_-]{40,48})`)
 
 type C16POp struct {
 	Kind string `json:"kind"` // insert update delete w-vacuum p-vacuum w-refresh
 	Key  int    `json:"key,omitempty"`
 	Val  int    `json:"val,omitempty"`
 	Back int    `json:"back,omitempty"` // vacuums: cutoff = now - Back seconds (0 = now)
+	Nth  int    `json:"nth,omitempty"`  // w-vacuum: the Nth DELETE request of the vacuum gets Fault (0 = none)
+	Lost bool   `json:"lost,omitempty"` // the fault is a lost response (applied, error returned) instead of a clean error
 }
 
 type C16PParams struct {
@@ -36,6 +41,30 @@ func init() {
 		p := &C16PParams{EPN: []int{2, 2, 3, 4}[r.IntN(4)], Cache: []int{8, 64, 1000, 1000}[r.IntN(4)], Policy: []string{"fifo", "random"}[r.IntN(2)]}
 		n := 4 + r.IntN(9)
 		nkeys := 2 + r.IntN(7)
+		if r.IntN(3) == 0 {
+			// there and back: rows are added, a vacuum (by the peer, or the writer's own with a storage fault
+			// inside) removes the history, the rows are deleted again and purged: the tree returns to content
+			// it had before, node for node
+			m := 2 + r.IntN(4)
+			keys := r.Perm(8)[:m]
+			for i, k := range keys {
+				p.Ops = append(p.Ops, C16POp{Kind: "insert", Key: k, Val: i + 1})
+			}
+			v := C16POp{Kind: []string{"p-vacuum", "w-vacuum", "w-vacuum"}[r.IntN(3)]}
+			if v.Kind == "w-vacuum" && r.IntN(4) != 0 {
+				v.Nth, v.Lost = 1+r.IntN(4), r.IntN(2) == 0
+			}
+			p.Ops = append(p.Ops, v)
+			back := 1 + r.IntN(m-1)
+			for i := 0; i < back; i++ {
+				p.Ops = append(p.Ops, C16POp{Kind: "delete", Key: keys[m-1-i]})
+			}
+			p.Ops = append(p.Ops, C16POp{Kind: "w-vacuum"})
+			if r.IntN(2) == 0 {
+				p.Ops = append(p.Ops, C16POp{Kind: "insert", Key: keys[m-1], Val: 99})
+			}
+			return p
+		}
 		for i := 0; i < n; i++ {
 			op := C16POp{Key: r.IntN(nkeys), Val: i + 1}
 			switch k := r.IntN(20); {
@@ -51,6 +80,9 @@ func init() {
 			case k < 19:
 				op.Kind = "w-vacuum"
 				op.Back = []int{0, 0, 1, 2}[r.IntN(4)]
+				if r.IntN(3) == 0 {
+					op.Nth, op.Lost = 1+r.IntN(4), r.IntN(2) == 0
+				}
 			default:
 				op.Kind = "w-refresh"
 			}
@@ -188,6 +220,13 @@ func runC16Peer(x *Exec) {
 					_, err = wr.Query("select s3db_refresh(?)", t)
 				case "w-vacuum":
 					var res string
+					if op.Nth > 0 {
+						kind := FaultErr
+						if op.Lost {
+							kind = FaultLostReply
+						}
+						w.Faults = []*FaultSpec{{Client: "w", Op: OpDelete, Nth: op.Nth, Kind: kind}}
+					}
 					res, err = vacuum(wr, t, op.Back)
 					if err == nil && strings.Contains(res, "s3db_refresh") {
 						x.Probe("writer-vacuum-refused")
@@ -195,10 +234,16 @@ func runC16Peer(x *Exec) {
 							res, err = vacuum(wr, t, op.Back)
 						}
 					}
+					fired := op.Nth > 0 && w.Faults[0].Fired > 0
+					w.Faults = nil
 					if err == nil && res != "null" {
 						err = fmt.Errorf("vacuum: %s", res)
 					}
-					if err == nil {
+					if fired && err != nil {
+						// a vacuum that met a storage error may fail; what it leaves behind is checked like everything else
+						x.Probe("writer-vacuum-failed-by-fault")
+						err = nil
+					} else if err == nil {
 						x.Probe("writer-vacuum")
 					}
 				case "p-vacuum":
@@ -227,7 +272,12 @@ func runC16Peer(x *Exec) {
 					}
 				}
 				if err != nil {
-					x.Fail("C16-unexpected-error", "%s fails without an injected fault: %v", label, err)
+					class := "C16-unexpected-error"
+					if m := persistLoadRe.FindStringSubmatch(err.Error()); m != nil && strings.Contains(err.Error(), "NoSuchKey") && allPeerDeletedWhileCached(w, lay, []string{m[1]}) {
+						// KF-28b seen from the writer's side: its own statement trips over the node it skipped storing
+						class = "C16-incomplete-node-deleted-by-peer-vacuum"
+					}
+					x.Fail(class, "%s fails without an injected fault: %v", label, err)
 					return
 				}
 				acked++
